@@ -6,6 +6,7 @@ import (
 	"bytes"
 	"context"
 	"fmt"
+	"strings"
 	"time"
 
 	"github.com/gopcua/opcua"
@@ -113,6 +114,11 @@ func (r *c06Run) Main(s *sim.Sim) {
 			// (a) a request of that payload size
 			before := len(perReq)
 			_, werr := cl.Write(ctx, writeReq(ua.NewNumericNodeID(1, 1), fill(3, size)))
+			if tooBig > int(r.AckSend) {
+				// not the known direction mix-up: larger than either of the server's buffers
+				s.Fail("C06", "oversized-chunk", "client-chunk-exceeds-both-server-buffers", "the client sent a chunk of %d bytes; the server announced receive buffer %d and send buffer %d (client's own send buffer: %d)", tooBig, r.AckRecv, r.AckSend, r.HelSend)
+				return
+			}
 			if tooBig > 0 {
 				s.Fail("C06", "oversized-chunk", "client-ignores-peer-receive-buffer", "the client sent a chunk of %d bytes although the server announced a receive buffer of %d (its own send buffer: %d, the server's send buffer: %d)", tooBig, r.AckRecv, r.HelSend, r.AckSend)
 				return
@@ -140,7 +146,16 @@ func (r *c06Run) Main(s *sim.Sim) {
 			// (b) a response made of chunks of exactly ACK.SendBuf bytes (which is <= the client's receive buffer)
 			res, rerr := cl.Read(ctx, &ua.ReadRequest{MaxAge: float64(size), NodesToRead: []*ua.ReadValueID{{NodeID: ua.NewNumericNodeID(1, 1), AttributeID: ua.AttributeIDValue}}})
 			if rerr != nil || len(res.Results) != 1 || res.Results[0].Value == nil || !bytes.Equal(res.Results[0].Value.Value().([]byte), fill(7, size)) {
-				s.Fail("C06", "entitled-chunk-rejected", "client-rejects-chunk-within-its-receive-buffer", "a response of %d bytes sent in chunks of %d bytes (the server's announced send buffer; the client announced a receive buffer of %d) failed: %v", size, r.AckSend, r.HelRecv, rerr)
+				sig := "client-rejects-chunk-within-its-receive-buffer"
+				if rerr != nil && (r.AckMaxChunks > 0 || r.AckMaxMsg > 0) && (strings.Contains(rerr.Error(), "too many chunks") || strings.Contains(rerr.Error(), "too large")) {
+					// second symptom of the wholesale adoption of the Acknowledge: the limits
+					// the server announced for messages *it* receives are applied to responses
+					sig = "client-applies-server-message-limits-to-responses"
+				} else if r.AckSend <= r.AckRecv {
+					// the known mix-up (incoming chunks bounded by the server's *receive* buffer) cannot explain this one
+					sig = "client-rejects-chunk-within-both-buffers"
+				}
+				s.Fail("C06", "entitled-chunk-rejected", sig, "a response of %d bytes sent in chunks of %d bytes (the server's announced send buffer; the client announced a receive buffer of %d) failed: %v", size, r.AckSend, r.HelRecv, rerr)
 				return
 			}
 			s.Probe("response-accepted")
@@ -211,6 +226,10 @@ func (r *c06Run) Main(s *sim.Sim) {
 		}
 	})
 	svc, err = sendWithToken(readReq(e.nodeID("big")))
+	if maxSeen > int(r.HelRecv) && maxSeen > int(r.AckSend) {
+		s.Fail("C06", "oversized-chunk", "server-chunk-exceeds-its-own-send-buffer", "the server sent a chunk of %d bytes; its configured send buffer is %d and the client announced a receive buffer of %d", maxSeen, r.AckSend, r.HelRecv)
+		return
+	}
 	if maxSeen > int(r.HelRecv) {
 		s.Fail("C06", "oversized-chunk", "server-ignores-peer-receive-buffer", "the server sent a chunk of %d bytes although the client announced a receive buffer of %d in its Hello (server ACK: send buffer %d)", maxSeen, r.HelRecv, cl.Ack.SendBuf)
 		return
